@@ -102,7 +102,32 @@ class _Base(common.Family):
       return None
 
     sim.invariants.append(watchdog)
+    self._timed(cfg, sim, cl, policy)
     return cl, pool, policy
+
+  def _timed(self, cfg, sim, cl, policy):
+    """Workers that leave at an arbitrary scheduling step (not tied to a call):
+    in particular right after their work is done and delivered."""
+    import threading
+    import time
+    import courier
+    for tf in cfg.get('timed') or ():
+      def leave(tf=tf):
+        sim.wait_steps(tf['steps'])
+        if courier.NET.is_dead(cl.node_of(tf['w'])):
+          return
+        sim.count('fault:timed_' + tf['kind'])
+        policy.fired.append({'kind': 'death', 'addr': tf['w'],
+                             'method': '(step)', 'call': -1,
+                             't': round(time.monotonic(), 6)})
+        if tf['kind'] == 'goodbye':
+          # a clean exit: the server says goodbye to the host (it is
+          # unregistered at once) and stops serving
+          cl.servers[tf['w']].stop()
+        else:
+          cl.kill(tf['w'])
+      with cluster.node('injector'):
+        threading.Thread(target=leave, name='leaver', daemon=True).start()
 
   def _jumper(self, cfg, sim, obs):
     import threading
@@ -120,8 +145,15 @@ class _Base(common.Family):
     return t
 
   def _common_gen(self, rng):
+    w = rng.choice([1, 2, 2, 3, 4])
+    timed = []
+    if w > 1 and rng.random() < 0.25:
+      timed.append({'w': f'w{rng.randrange(w)}',
+                    'steps': rng.choice([300, 1000, 3000, 8000, 20000, 50000]),
+                    'kind': rng.choice(['goodbye', 'death'])})
     return {
-        'workers': rng.choice([1, 2, 2, 3, 4]),
+        'timed': timed,
+        'workers': w,
         'call_timeout': rng.choice([2.0, 5.0]),
         'hb_threshold': rng.choice([70, 120]),
         'latency': rng.choice([0, 0, 1]),
@@ -173,13 +205,16 @@ class _Base(common.Family):
       c = copy.deepcopy(cfg); c['latency'] = 0; yield c
     if cfg.get('jump'):
       c = copy.deepcopy(cfg); c['jump'] = None; yield c
+    if cfg.get('timed'):
+      c = copy.deepcopy(cfg); c['timed'] = []; yield c
     for i in range(len(cfg['plan'])):
       c = copy.deepcopy(cfg); del c['plan'][i]; yield c
     for i, f in enumerate(cfg['plan']):
       if f['nth'] > 1:
         c = copy.deepcopy(cfg); c['plan'][i]['nth'] -= 1; yield c
     if cfg['workers'] > 1 and all(
-        f['addr'] != f"w{cfg['workers'] - 1}" for f in cfg['plan']):
+        f['addr'] != f"w{cfg['workers'] - 1}" for f in cfg['plan']) and all(
+            t['w'] != f"w{cfg['workers'] - 1}" for t in cfg.get('timed') or ()):
       c = copy.deepcopy(cfg); c['workers'] -= 1; yield c
 
 
